@@ -189,14 +189,17 @@ def run_case(args):
                     if len(res.setdefault('mismatch_samples', [])) < 3:
                         res['mismatch_samples'].append(dict(inputs=w, symbolic=_json_sig(sig), concrete=conc))
         # confirm candidates on the real package (in-process; the driver re-confirms through --replay)
-        seen = set()
+        seen = {}
         for cand in res['candidates']:
             key = (cand['kind'], cand['label'], cand.get('exc_type'))
             cand['confirmed'] = False
-            if cand['inputs'] is None and cand['kind'] != 'obligation':
+            if cand['inputs'] is None:
                 cand['inputs'] = {}
-            if seen.__contains__(key) and len([x for x in res['candidates'] if x.get('confirmed')]) >= 3:
+            st = seen.setdefault(key, dict(confirmed=0, tried=0))
+            if st['confirmed'] >= 1 or st['tried'] >= 8:
+                cand['duplicate'] = True       # same clause already confirmed (or tried often) in this structural case
                 continue
+            st['tried'] += 1
             for inp in [cand['inputs'], cand.get('alt_inputs')]:
                 if inp is None:
                     continue
@@ -205,7 +208,7 @@ def run_case(args):
                 if confirms(cand, conc):
                     cand['confirmed'] = True
                     cand['inputs'] = inp
-                    seen.add(key)
+                    st['confirmed'] += 1
                     break
         res['stats'] = c.stats
         res['assumptions'] = sorted(c.assumption_notes)
@@ -309,7 +312,7 @@ def main(argv=None):
                                                                               len(r['candidates']), len(r['unknown']), r['wall_s'], r.get('error', '')), flush=True)
     # ------------------------------------------------------------------ aggregate
     agg = dict(paths=0, decisions=0, obligations=0, discharged=0, unknown=0, queries=0, solver_s=0.0, lin_unsat=0,
-               nra_queries=0, infeasible=0, trivially=0)
+               nra_queries=0, infeasible=0, trivially=0, decide_unknown=0)
     errors = [r['error'] for r in results if r.get('error')]
     skipped = sum(1 for r in results if r.get('skipped'))
     truncated = sum(1 for r in results if r.get('truncated'))
@@ -339,9 +342,13 @@ def main(argv=None):
     violations = []
     known_hits = {}
     unconfirmed = 0
+    duplicates = 0
     unconfirmed_samples = []
     for r in results:
         for cand in r['candidates']:
+            if cand.get('duplicate'):
+                duplicates += 1
+                continue
             if not cand.get('confirmed'):
                 unconfirmed += 1
                 if len(unconfirmed_samples) < 5:
@@ -378,9 +385,9 @@ def main(argv=None):
     cov = dict(
         states=agg['paths'], transitions=max(agg['decisions'], 0), traces_validated_against_impl=validated,
         samples=samples or [dict(note='no path explored')], obligations=agg['obligations'], discharged=agg['discharged'],
-        unknown=agg['unknown'], unconfirmed_counterexamples=unconfirmed, unconfirmed_samples=unconfirmed_samples,
+        unknown=agg['unknown'], unconfirmed_counterexamples=unconfirmed, duplicate_counterexamples_not_replayed=duplicates, unconfirmed_samples=unconfirmed_samples,
         not_encodable_paths=len(notenc), not_encodable_samples=sorted(set(notenc))[:5],
-        path_outcomes=outcomes, infeasible_paths_pruned=agg['infeasible'], structural_cases=len(cases), cases_skipped_budget=skipped,
+        path_outcomes=outcomes, infeasible_paths_pruned=agg['infeasible'], branch_feasibility_unknown_explored_both=agg['decide_unknown'], structural_cases=len(cases), cases_skipped_budget=skipped,
         cases_truncated=truncated, validation_mismatch=mism, validation_skipped=vskip,
         solver=dict(engine='z3 %s (python API)' % core.z3.get_version_string(), queries=agg['queries'], linear_abstraction_unsat=agg['lin_unsat'],
                     nra_queries=agg['nra_queries'], solver_s=round(agg['solver_s'], 2), per_query_timeout_ms=cfg['qtimeout_ms']),
